@@ -46,6 +46,16 @@ CLEANUP = ("remove", "prune", "branch-D")
 # Generation
 
 
+def _expand(content):
+    """`<BIG:n>` on the first line stands for n filler lines and a last definition appended to the rest (a generated
+    file of more than ten thousand lines does not belong in a replay file)."""
+    if content.startswith("<BIG:"):
+        head, rest = content.split("\n", 1)
+        n = int(head[5:-1])
+        return rest + "# generated table, do not edit\n" * n + "\n\ndef tail():\n    \"\"\"last definition of a very long module\"\"\"\n    return 0\n"
+    return content
+
+
 def _version(rng, i, kind, sibling=False):
     """One version of the package: relpath (inside the package dir; `../_pkg/x.py` = private sibling package) -> content."""
     params = ["a", "b", "c"][: rng.choice([1, 2, 3])]
@@ -63,6 +73,9 @@ def _version(rng, i, kind, sibling=False):
     }
     if rng.random() < 0.6:
         files["b.py"] = f"from pkg.a import K\n\n\ndef g(x={i}):\n    return K()\n"
+    if rng.random() < 0.06:
+        # scale: a module far longer than anything else in the package
+        files["a.py"] = f"<BIG:{rng.choice([3000, 10500, 70000])}>\n" + files["a.py"]
     if kind == "syntax":
         files["a.py"] = "def f(:\n    pass\n"
     elif kind == "undecodable":
@@ -201,6 +214,7 @@ def build_repo(root, world):
         if c["files"]:
             os.makedirs(pkg_dir)
             for rel, content in c["files"].items():
+                content = _expand(content)
                 data = content.encode("latin-1") if c["kind"] == "undecodable" and rel == "b.py" else content.encode("utf8")
                 full = os.path.normpath(os.path.join(pkg_dir, rel))
                 os.makedirs(os.path.dirname(full), exist_ok=True)
@@ -526,7 +540,7 @@ def _source_check(ctx, world, top, ref_commit, w_norm, tags, resolved_expected=F
             if isinstance(fp, Path):
                 key = fp.name if fp.parent.name == "pkg" else f"../{fp.parent.name}/{fp.name}"
             if files is not None and not m.is_module and key in files and m.lineno and m.endlineno:
-                expected = files[key].splitlines()[m.lineno - 1 : m.endlineno]
+                expected = _expand(files[key]).splitlines()[m.lineno - 1 : m.endlineno]
                 if lines != expected:
                     ctx.fail("U-source", f"{m.path}: source lines differ from the file at that commit: {lines[:2]} != {expected[:2]}", tags=tags)
                     return False
